@@ -32,6 +32,9 @@ inductive RunErr where
   | noAssets    -- loader / dumper / committer without an asset accessor
   | unknownNode -- `State.offset`: gid not in the persistent list (`UnexpectedError`)
   | commitSize  -- `State.commit`: `len(states) != len(nodes)` (assertion)
+  | assetRefused -- the accessor refused a load with a `forml.InvalidError` that is not the documented `MissingError`
+                 -- (`asset.Level.Invalid`: nonexistent generation, unknown state reference; `UnexpectedError`)
+  | assetCrashed -- the accessor raised anything else (I/O error, bug)
   deriving DecidableEq, Repr, Inhabited
 
 /-- Provenance terms. `none` is Python's `None` / an empty state (the only *falsy* value). -/
